@@ -70,6 +70,16 @@ CHECKS["C02"] = ("FileResponse.tla, RangeOps.tla",
     "C03-bound function. The file is not modified between construction and sending.",
     "DESIGN.md 5 C02")
 
+CHECKS["C05"] = ("HttpProtocol.tla, TraceHttpProtocol.tla",
+    "TLC model check of the ASGI/WSGI recognisers composed with an emitter and fault injection (LegalPrefix, LegalComplete); "
+    "every (shape, fault) behaviour forced onto real responses; raw emissions of every execution (all response classes x "
+    "request variants x interfaces x zero-copy x faults) validated event by event by TLC against TraceHttpProtocol.tla",
+    "The recogniser is the property: a recorded sequence that TLC cannot consume, or that is incomplete after a normal "
+    "return, is a violation. Faults: send() failing at every position, disconnect after every send, producer exception at "
+    "every item, server close() after every item.",
+    "Trusted: TLC, harness/protocol.py (turns raw messages into typed event records), servers.py.",
+    "DESIGN.md 5 C05")
+
 NOT_YET = {}
 
 ALL = ["C%02d" % i for i in range(1, 21)]
